@@ -246,10 +246,30 @@ def production_sequences(g, name):
                 elif re.fullmatch(r"[a-z_][A-Za-z0-9_]*", part):
                     binder_field.setdefault(part, part)
         named = [s_["name"] for s_ in a.symbols if s_["name"] and not s_["sym"].startswith("@")]
+        tuple_binders = {}      # binder of a symbol whose nonterminal yields a tuple -> the fields of the tuple's components
         if named and not any(b in binder_field for b in named) and re.search(r"\b[a-z_][A-Za-z0-9_]*\s*\(", action) and not body:
             # `=> helper(span(l, r), sort, fst, ..)`: which field a binder ends up in is decided inside the helper
-            raise AnalysisError("C16: production %s builds its node through a helper function (%s): the grammar reader cannot bind the "
-                                "production's symbols to the node's fields" % (name, " ".join(action.split())[:60]))
+            hb = _helper_binding(g, action)
+            if hb is None:
+                raise AnalysisError("C16: production %s builds its node through a helper function (%s): the grammar reader cannot bind the "
+                                    "production's symbols to the node's fields" % (name, " ".join(action.split())[:60]))
+            binder_field, tuple_binders = hb
+        seqs_cur = [[]]
+        for s in a.symbols:
+            sym = s["sym"]
+            if sym.startswith(("@",)):
+                continue
+            seq = None
+            inl = _inline_simple(g, sym, s["name"], tuple_binders)
+            if inl is not None:
+                seqs_cur = [pre + alt for pre in seqs_cur for alt in inl]
+                continue
+            seq = []
+            _emit_symbol(g, s, sym, binder_field, seq)
+            seqs_cur = [pre + seq for pre in seqs_cur]
+        for sq in seqs_cur:
+            out.append((a, sq))
+        continue
         seq = []
         for s in a.symbols:
             sym = s["sym"]
@@ -273,6 +293,132 @@ def production_sequences(g, name):
                 seq.append(("hole", fld, sym))
         out.append((a, seq))
     return out
+
+
+def _emit_symbol(g, s, sym, binder_field, seq):
+    if sym.startswith(('"', 'r"')):
+        seq.append(("tok", sym))
+        return
+    fld = binder_field.get(s["name"]) if s["name"] else None
+    for _ in range(3):
+        w = _wrapper_target(g, sym)
+        if not w:
+            break
+        sym = w
+    m = re.match(r"([A-Za-z]+)<(.*)>$", sym)
+    if m and m.group(1) in MACROS:
+        o, c, opt = MACROS[m.group(1)]
+        grp = [("tok", '"%s"' % o), ("hole", fld, m.group(2)), ("tok", '"%s"' % c)]
+        seq.append(("opt", grp, fld) if opt else ("grp", grp, fld))
+    else:
+        seq.append(("hole", fld, sym))
+
+
+def _inline_simple(g, sym, binder, tuple_binders):
+    """a nonterminal that only abbreviates part of a production is expanded in place: one whose alternatives are single tokens
+    yielding an enum value (`Cmp: IfSort = { "==" => IfSort::Equal, .. }`), or one that yields a tuple of its own symbols
+    (`Branches: (Term, Term) = { <t: Braces<Term>> "else" <e: Braces<Term>> => (t, e) }`) when the helper says which fields the
+    components become.  Returns the list of alternative symbol sequences, or None."""
+    p = g.prods.get(sym)
+    if not p or p.get("params"):
+        return None
+    alts = p["alts"]
+    if alts and all(len([x for x in a.symbols if not x["sym"].startswith("@")]) == 1 and a.symbols and
+                    [x for x in a.symbols if not x["sym"].startswith("@")][0]["sym"].startswith(('"', 'r"')) and
+                    re.fullmatch(r"\s*([A-Z][A-Za-z0-9]*::[A-Z][A-Za-z0-9]*|true|false|-?[0-9]+)\s*,?\s*", a.action or "") for a in alts):
+        return [[("tok", [x for x in a.symbols if not x["sym"].startswith("@")][0]["sym"])] for a in alts]
+    if binder in tuple_binders:
+        fields = tuple_binders[binder]
+        out = []
+        for a in alts:
+            m = re.fullmatch(r"\s*\(([^()]*)\)\s*,?\s*", a.action or "")
+            if not m:
+                return None
+            comps = [c.strip() for c in m.group(1).split(",") if c.strip()]
+            if len(comps) != len(fields) or not all(re.fullmatch(r"[a-z_][A-Za-z0-9_]*", c) for c in comps):
+                return None
+            bf = dict(zip(comps, fields))
+            seq = []
+            for s in a.symbols:
+                if s["sym"].startswith("@"):
+                    continue
+                _emit_symbol(g, s, s["sym"], bf, seq)
+            out.append(seq)
+        return out
+    return None
+
+
+def _helper_binding(g, action):
+    """`helper(e1, e2, ..)` where `fn helper(p1: T1, (q1, q2): (..), ..) -> Node { Node { f: .. p1 .., g: .. q1 .. } }` is one of the parser's
+    Rust helpers: (binder -> field, binder of a tuple-valued symbol -> fields of the components)"""
+    m = re.fullmatch(r"\s*([a-z_][A-Za-z0-9_]*)\s*\((.*)\)\s*,?\s*", action, re.S)
+    src = getattr(g, "helper_src", "")
+    if not m or not src:
+        return None
+    hname, args = m.group(1), [x.strip() for x in _split_top(m.group(2))]
+    hm = re.search(r"\bfn\s+%s\s*(?:<[^>]*>)?\s*\(" % re.escape(hname), src)
+    if not hm:
+        return None
+    # parameter list: up to the matching parenthesis
+    i, depth = hm.end(), 1
+    while i < len(src) and depth:
+        depth += src[i] in "([{"
+        depth -= src[i] in ")]}"
+        i += 1
+    params = []
+    for part in _split_top(src[hm.end():i - 1]):
+        part = part.strip()
+        if not part:
+            continue
+        pat = part.rsplit(":", 1)[0].strip() if ":" in part else part
+        # split at the top-level colon of `pattern: type`
+        d, cut = 0, None
+        for j, ch in enumerate(part):
+            d += ch in "([{<"
+            d -= ch in ")]}>"
+            if ch == ":" and d == 0:
+                cut = j
+                break
+        pat = part[:cut].strip() if cut is not None else part
+        params.append(pat)
+    # the struct literal of the helper's body
+    bm = re.search(r"\{", src[i:])
+    body_start = i + bm.start() if bm else None
+    if body_start is None:
+        return None
+    j, depth = body_start + 1, 1
+    while j < len(src) and depth:
+        depth += src[j] in "{"
+        depth -= src[j] in "}"
+        j += 1
+    hbody = src[body_start + 1:j - 1]
+    lit = re.search(r"\b[A-Z][A-Za-z0-9]*\s*\{(.*)\}", hbody, re.S)
+    if not lit:
+        return None
+    pfield = {}
+    for part in _split_top(lit.group(1)):
+        part = part.strip()
+        mm = re.match(r"([a-z_][A-Za-z0-9_]*)\s*:\s*(.*)$", part, re.S)
+        if mm:
+            for b in re.findall(r"[a-z_][A-Za-z0-9_]*", mm.group(2)):
+                pfield.setdefault(b, mm.group(1))
+        elif re.fullmatch(r"[a-z_][A-Za-z0-9_]*", part):
+            pfield.setdefault(part, part)
+    if len(args) != len(params):
+        return None
+    binder_field, tuple_binders = {}, {}
+    for pat, arg in zip(params, args):
+        tm = re.fullmatch(r"\(([^()]*)\)", pat)
+        if tm:
+            comps = [c.strip() for c in tm.group(1).split(",") if c.strip()]
+            if re.fullmatch(r"[a-z_][A-Za-z0-9_]*", arg) and all(c in pfield for c in comps):
+                tuple_binders[arg] = [pfield[c] for c in comps]
+            continue
+        pat = re.sub(r"^mut\s+", "", pat)
+        if pat in pfield:
+            for b in re.findall(r"[a-z_][A-Za-z0-9_]*", arg):
+                binder_field.setdefault(b, pfield[pat])
+    return binder_field, tuple_binders
 
 
 def _split_top(s):
